@@ -24,6 +24,7 @@ type Env struct {
 	pkg    *types.Package
 	defs   []Term // definedness side conditions collected (index in bounds etc.) - unused
 	fuel   Term   // inside a ufun definition body: the fuel of recursive calls
+	specPkg string // package whose specification functions are in scope (when pkg is unknown)
 }
 
 type evalError string
@@ -582,14 +583,28 @@ func (env *Env) evalCall(t *ECall) Value {
 		v := env.eval(t.Args[0])
 		return env.boolv(x.typeInvTerm(env, v))
 	}
-	if uf, ok := x.p.cs.UFuns[t.Fn]; ok {
+	// specification functions are looked up in the package of the clause, then among
+	// the package-less ones of /verif/specs
+	pkgPath := env.specPkg
+	if pkgPath == "" && env.pkg != nil {
+		pkgPath = env.pkg.Path()
+	}
+	uf, ok := x.p.cs.UFuns[pkgPath+"."+t.Fn]
+	if !ok {
+		uf, ok = x.p.cs.UFuns["."+t.Fn]
+	}
+	if ok {
 		return env.applyUFun(uf, t.Args)
 	}
-	if sf, ok := x.p.cs.Specs[t.Fn]; ok {
+	sf, ok := x.p.cs.Specs[pkgPath+"."+t.Fn]
+	if !ok {
+		sf, ok = x.p.cs.Specs["."+t.Fn]
+	}
+	if ok {
 		if len(sf.Params) != len(t.Args) {
 			env.fail("spec %s arity", t.Fn)
 		}
-		ne := &Env{x: x, st: env.st, old: env.old, vars: map[string]Value{}, pkg: env.pkg, ovars: env.ovars}
+		ne := &Env{x: x, st: env.st, old: env.old, vars: map[string]Value{}, pkg: env.pkg, ovars: env.ovars, specPkg: pkgPath, fuel: env.fuel}
 		for i, a := range t.Args {
 			v := env.eval(a)
 			if T, ok := convTypes[sf.PTypes[i]]; ok && v.T == tUntyped {
